@@ -542,7 +542,11 @@ class Folder:
         if k == "Block" and not e.get("stmts") and "expr" in e:
             return self._place(e["expr"])
         if k == "Deref":
-            inner = strip_keep_deref(e["arg"])
+            inner = e["arg"]
+            while inner.get("k") in ("Coerce", "Borrow") or (inner.get("k") == "Block" and not inner.get("stmts") and "expr" in inner):
+                inner = inner["arg"] if "arg" in inner else inner["expr"]
+            if inner.get("k") == "Call" and canon(callee_of(inner)).endswith(("::index_mut", "::index")):
+                return self._place(inner)
             v = self.fold(e["arg"])
             if isinstance(v, Ref):
                 return v.c, v.k
@@ -832,13 +836,44 @@ class Folder:
             if not some:
                 return {"__adt__": "core::option::Option", "__variant__": "None"}
             return {"__adt__": "core::option::Option", "__variant__": "Some", "#0": v, "0": v}
+        if cc == "alloc::vec::Vec::new" and not a:
+            return []
         if not a:
             return NotImplemented
-        if last in ("iter", "into_iter", "copied", "cloned", "as_slice", "as_ref", "deref", "by_ref") and len(a) == 1:
+        if cc.startswith("alloc::vec::Vec::") and last in ("push", "extend_from_slice") and len(a) == 2:
+            v = _loaded(self.fold(a[0]))
+            if isinstance(v, list):
+                x = self.fold(a[1])
+                if last == "push":
+                    v.append(x)
+                elif isinstance(x, list):
+                    v.extend(_loaded(y) for y in x)
+                else:
+                    return NotImplemented
+                return None
+            return NotImplemented
+        if last in ("iter", "into_iter", "copied", "cloned", "as_slice", "as_ref", "deref", "by_ref", "deref_mut", "as_mut_slice") and len(a) == 1:
             v = self.fold(a[0])
             if isinstance(v, list) or (self._iterable(v) is not None and last in ("into_iter", "by_ref")):
                 return v
             return NotImplemented
+        if last in ("index", "index_mut") and ("ops::Index" in cc or "ops::index" in cc) and len(a) == 2:
+            v = _loaded(self.fold(a[0]))
+            i = self.fold(a[1])
+            if isinstance(v, list) and isinstance(i, int) and not isinstance(i, bool):
+                if not (0 <= i < len(v)):
+                    raise Trap("index %d out of bounds (len %d) at %s" % (i, len(v), span_str(e["span"])))
+                return _loaded(v[i])
+            if isinstance(v, list) and isinstance(i, dict) and str(i.get("__adt__", "")).startswith("core::ops::Range"):
+                return self._subslice(v, i, e)
+            return NotImplemented
+        if cc.endswith("vec::from_elem") and len(a) == 2:
+            x, n = self.fold(a[0]), self.fold(a[1])
+            if isinstance(n, int) and not isinstance(n, bool) and 0 <= n <= 200000 and not isinstance(x, (list, dict)):
+                return [x] * n
+            return NotImplemented
+        if cc in ("alloc::vec::Vec::new", "alloc::vec::Vec::with_capacity"):
+            return []
         if last == "iter_mut" and len(a) == 1:
             v = _loaded(self.fold(a[0]))
             if isinstance(v, list):
